@@ -141,6 +141,12 @@ class Interferometer(_PassiveLinearGate):
                 "The interferometer matrix should be a square matrix."
             )
 
+        if len(self.modes) != 0 and len(self.modes) != len(matrix):
+            raise InvalidParameter(
+                f"The interferometer matrix of shape {tuple(matrix.shape)} cannot be "
+                f"applied to the modes {self.modes}."
+            )
+
     def _get_passive_block(self, connector, config):
         return self._params["matrix"]
 
